@@ -53,13 +53,47 @@ pub open spec fn oct3_spec(s: Seq<u8>) -> Option<u8> {
 }
 
 // ---------------------------------------------------------------------------------------------- stubbed parsers
-// The three parsers below are NOT verified (their bodies use constructs the Verus front end rejects).  Each is
+// The parser parse_hunk_header below is NOT verified (their bodies use constructs the Verus front end rejects).  Each is
 // represented by an uninterpreted function of the input BYTES: the only thing assumed about them is that their
 // result is determined by the bytes they are given (they are pure functions) plus the weak framing facts stated in
 // the stub contracts of units/parser.vu.
 
 /// result of `parse_number_usize` on these bytes: (remaining bytes, value) or None for an error
-pub uninterp spec fn spec_number(input: Seq<u8>) -> Option<(Seq<u8>, usize)>;
+/// decimal value of a digit string (most significant digit first)
+pub open spec fn dec_value(s: Seq<u8>) -> nat { sh_dec_value(s) }   // prelude/parser_shims.rs: d_1*10^(k-1) + .. + d_k
+pub open spec fn all_digits(s: Seq<u8>) -> bool { forall|i: int| 0 <= i < s.len() ==> digit_byte(#[trigger] s[i]) }
+
+/// length of the maximal run of digit bytes at the start of s
+pub open spec fn digit_run(s: Seq<u8>) -> int
+    decreases s.len()
+{
+    if s.len() > 0 && digit_byte(s[0]) { 1 + digit_run(s.subrange(1, s.len() as int)) } else { 0 }
+}
+
+pub proof fn lemma_digit_run(s: Seq<u8>, k: int)
+    requires
+        0 <= k <= s.len(),
+        forall|i: int| 0 <= i < k ==> digit_byte(#[trigger] s[i]),
+        k < s.len() ==> !digit_byte(s[k]),
+    ensures digit_run(s) == k
+    decreases s.len()
+{
+    if k > 0 {
+        let t = s.subrange(1, s.len() as int);
+        assert forall|i: int| 0 <= i < k - 1 implies digit_byte(#[trigger] t[i]) by { assert(t[i] == s[i + 1]); }
+        if k - 1 < t.len() { assert(t[k - 1] == s[k]); }
+        lemma_digit_run(t, k - 1);
+    }
+}
+
+/// A number in a hunk header (unified format: decimal, no sign): the maximal run of digits at the start of the input
+/// read as a decimal number; an error if there is no digit or the value does not fit a machine word; `rest` is what
+/// follows the digits.  Written from the format, NOT from the code.
+pub open spec fn spec_number(input: Seq<u8>) -> Option<(Seq<u8>, usize)> {
+    let k = digit_run(input);
+    if k == 0 || dec_value(input.subrange(0, k)) > usize::MAX { None }
+    else { Some((input.subrange(k, input.len() as int), dec_value(input.subrange(0, k)) as usize)) }
+}
 
 pub ghost struct HeaderSpec {
     pub remove_line: usize,
